@@ -20,7 +20,7 @@ for pid in ids:
         "engine": "vx-verus",
         "level_claimed": {"category": "proof", "text": c["level_text"], "design_ref": c.get("design_ref", "DESIGN.md §4 " + pid)},
         "level_note": c["level_note"],
-        "technique": c.get("technique", "contract-based deductive verification (Verus) of functions extracted mechanically from /repo"),
+        "technique": c.get("technique", "contract-based deductive verification (Verus) of functions extracted mechanically from /repo; bounded witness search on the real crates only to attach a failing input after a deductive failure"),
     })
 m = {
     "version": 1,
@@ -34,11 +34,11 @@ m = {
     },
     "engines": [
         {"name": "vx-verus", "path": "check", "serves_properties": [c["property_id"] for c in checks],
-         "kind_free_text": "vx-extract (syn) fills contract templates contracts/*.vc.rs with the real function bodies from /repo on every run; Verus 0.2026.09.13 discharges every obligation; vacuity canaries; instability re-runs"},
+         "kind_free_text": "vx-extract (syn) fills contract templates contracts/*.vc.rs with the real function bodies from /repo on every run; Verus 0.2026.09.13 discharges every obligation; vacuity canaries; instability re-runs; after a deductive failure (or when the changed code is outside the verifier's reach) the witness programs under witness/ search the real crates for a concrete failing input (never counted as proof)"},
     ],
     "checks": checks,
     "not_applicable": [{"property_id": k, "reason": v} for k, v in na.items() if k not in cfg],
-    "notes": "See DESIGN.md. Exit 2 (UNDECIDED) is used for lost anchors / unsupported constructs / solver limits and is never a VIOLATION.",
+    "notes": "See DESIGN.md. Exit 2 (UNDECIDED) is used for lost anchors / unsupported constructs / solver limits / failures of functions that lost proof help or call contract-less helpers, and is never a VIOLATION. seeded/ holds 48 confirmed property-breaking changes (seeded/RESULTS.md), benign/ 32 behaviour-preserving ones (benign/RESULTS.md).",
 }
 json.dump(m, open(os.path.join(ROOT, "MANIFEST.json"), "w"), indent=1)
 print("claimed:", [c["property_id"] for c in checks], "n/a:", [x["property_id"] for x in m["not_applicable"]])
